@@ -8,7 +8,7 @@ env = dict(os.environ)
 env.pop("HED_PYTHON_VERIF", None)
 with tempfile.TemporaryDirectory() as d:
     x = os.path.join(d, "j.xml")
-    cmd = base["cmd"].replace("<file>", x)
+    cmd = base["cmd"].replace("<file>", x).replace("cd /repo", "cd " + os.environ.get("VP_REPO", "/repo"))
     p = subprocess.run(cmd, shell=True, env=env, capture_output=True, text=True)
     passed = set()
     for tc in ET.parse(x).getroot().iter("testcase"):
